@@ -33,51 +33,32 @@ Fixpoint str_values (d : enum_def) : option (list str) :=
   | _ => None
   end.
 
-(* the guard: no outer whitespace, interior whitespace only as single spaces *)
-Definition enum_str_value_ok (v : str) : bool :=
-  str_eqb (py_strip v) v && str_eqb (join [32] (split_ws py_isspace v)) v.
-
-Lemma find_member_str m v vals d : forall vs k,
-  str_values d = Some vs -> join [32] vals = v ->
-  find_member m v vals k d = index_by str_eqb v vs k.
+Lemma find_exact_str v d : forall vs k,
+  str_values d = Some vs -> find_exact v k d = index_by str_eqb v vs k.
 Proof.
-  induction d as [|[n ev] r IH]; intros vs k Hs Hj; cbn in Hs.
+  induction d as [|[n ev] r IH]; intros vs k Hs; cbn in Hs.
   - inversion Hs; reflexivity.
   - destruct ev as [[x| | | |]| |]; try discriminate.
     destruct (str_values r) as [vr|] eqn:Er; [|discriminate]. inversion Hs; subst vs.
-    cbn [find_member enum_match index_by]. rewrite Hj, orb_diag.
-    destruct (str_eqb x v); [reflexivity|]. apply IH; [reflexivity|exact Hj].
+    cbn [find_exact index_by]. destruct (str_eqb x v); [reflexivity|]. apply IH. reflexivity.
 Qed.
 
-(* a member with a whitespace-normal value reads back as itself *)
+(* every member of a str-valued enumeration reads back as itself — whatever
+   whitespace its value contains (since repo fix 64a4ace: exact match first) *)
 Theorem enum_str_roundtrip m d vs i v :
-  str_values d = Some vs -> NoDup vs -> nth_error vs i = Some v -> enum_str_value_ok v = true ->
+  str_values d = Some vs -> NoDup vs -> nth_error vs i = Some v ->
   enum_ser m (EvAtom (AStr v)) = Some (v, m) /\ enum_deser m d v = Some i.
 Proof.
-  intros Hs Hnd Hn Hok. split; [reflexivity|].
-  unfold enum_str_value_ok in Hok. apply andb_true_iff in Hok as [H1 H2].
-  apply str_eqb_eq in H1, H2. unfold enum_deser. rewrite H1.
-  rewrite (find_member_str m v _ d vs 0 Hs H2).
+  intros Hs Hnd Hn. split; [reflexivity|].
+  unfold enum_deser. rewrite (find_exact_str v d vs 0 Hs).
   rewrite (index_by_nth str_eqb str_eqb_eq vs Hnd i v 0 Hn). reflexivity.
 Qed.
 
-(* without the guard the round trip fails: outer whitespace, and interior
-   whitespace that collides with an earlier member *)
-Lemma enum_str_roundtrip_outer_ws_refuted :
-  exists d v, str_values d = Some [v] /\ enum_ser None (EvAtom (AStr v)) = Some (v, None) /\ enum_deser None d v = None.
-Proof. exists [([65], EvAtom (AStr [32;108]))], [32;108]. repeat split; vm_compute; reflexivity. Qed.
-
-Lemma enum_str_roundtrip_collision_refuted :
-  exists d v, str_values d = Some [[97;32;98]; v] /\ NoDup [[97;32;98]; v]
-              /\ enum_ser None (EvAtom (AStr v)) = Some (v, None) /\ enum_deser None d v = Some 0%nat.
-Proof.
-  exists [([88], EvAtom (AStr [97;32;98])); ([89], EvAtom (AStr [97;9;98]))], [97;9;98].
-  repeat split; try (vm_compute; reflexivity).
-  constructor; [intros [H|[]]; discriminate|]. constructor; [intros []|constructor].
-Qed.
-
-Example enum_str_guard_nonvacuous :
-  enum_str_value_ok [98;32;99] = true /\ enum_str_value_ok [120] = true /\ enum_str_value_ok [] = true.
+(* the former refutation witnesses now round trip *)
+Example enum_str_ws_witnesses :
+  enum_deser None [([65], EvAtom (AStr [32;108]))] [32;108] = Some 0%nat
+  /\ enum_deser None [([88], EvAtom (AStr [97;32;98])); ([89], EvAtom (AStr [97;9;98]))] [97;9;98] = Some 1%nat
+  /\ enum_deser None [([88], EvAtom (AStr [97;32;98])); ([89], EvAtom (AStr [97;9;98]))] [32;97;10;32;98] = Some 0%nat.
 Proof. repeat split; vm_compute; reflexivity. Qed.
 
 (* tuple values (token-list enumerations): serialize raises, deserialize accepts *)
@@ -141,6 +122,13 @@ Proof.
   - cbn [forallb]. rewrite D. reflexivity.
 Qed.
 
+Lemma find_exact_int v d : forall zs k, int_values d = Some zs -> find_exact v k d = None.
+Proof.
+  induction d as [|[n ev] r IH]; intros zs k Hs; cbn in Hs; [reflexivity|].
+  destruct ev as [[|x| | |]| |]; try discriminate.
+  destruct (int_values r) as [zr|] eqn:Er; [|discriminate]. cbn [find_exact]. eapply IH. reflexivity.
+Qed.
+
 Theorem enum_int_roundtrip m d zs i z s :
   int_values d = Some zs -> NoDup zs -> nth_error zs i = Some z -> int_ser z = Some s ->
   enum_ser m (EvAtom (AInt z)) = Some (s, m) /\ enum_deser m d s = Some i.
@@ -151,7 +139,8 @@ Proof.
   { unfold int_ser in Hser. destruct (int_max_str_digits <? int_ndigits z); [discriminate|]. inversion Hser; reflexivity. }
   destruct (py_str_of_Z_nows z) as [Nw Ne]. rewrite <- E in Nw, Ne.
   destruct (nows_strip_split s Nw Ne) as [St Sp].
-  unfold enum_deser. cbv zeta. rewrite St. rewrite Sp.
+  unfold enum_deser. rewrite (find_exact_int s d zs 0 Hs). cbv zeta. rewrite St.
+  rewrite (find_exact_int s d zs 0 Hs). rewrite Sp.
   transitivity (index_by Z.eqb z zs 0); [apply (find_member_int m s z d zs 0 Hs RT)|].
   assert (Heq : forall x y, Z.eqb x y = true <-> x = y) by (intros; apply Z.eqb_eq).
   rewrite (index_by_nth Z.eqb Heq zs Hnd i z 0 Hn). reflexivity.
